@@ -1,6 +1,8 @@
 // ===== shims/io.rs — assumed contracts of async-std / std filesystem and atomics over the ghost World =====
 verus! {
 
+// whether a file can be read as text during this run (fixed for the run: no concurrent chmod / rewrite)
+pub uninterp spec fn readable(p: Seq<char>) -> bool;
 // names produced by AsyncTempFile::new (temp_dir()/breadlog-<uuid v4>.tmp)
 pub uninterp spec fn is_temp(p: Seq<char>) -> bool;
 // <config dir>/Breadlog.lock of this run
@@ -18,7 +20,7 @@ pub open spec fn atomic_inv(w: World) -> bool {
 }
 
 pub open spec fn same_but_fs(a: World, b: World) -> bool {
-    a.orig == b.orig && a.protected == b.protected && a.intended == b.intended
+    a.orig == b.orig && a.protected == b.protected && a.files == b.files && a.intended == b.intended
     && a.check_mode == b.check_mode && a.counter == b.counter && a.issued == b.issued
     && a.handlers == b.handlers && a.stop_seen == b.stop_seen && a.log == b.log
 }
@@ -102,6 +104,7 @@ pub mod async_std {
         pub async fn read_to_string(path: &String, Tracked(w): Tracked<&mut World>) -> (r: Result<String, IoError>)
             ensures
                 *final(w) == *old(w),
+                r.is_ok() == readable(path@),
                 r.is_ok() ==> old(w).fs.dom().contains(path@) && r.unwrap()@.len() >= 0 && encode_utf8(r.unwrap()@) == old(w).fs[path@],
         { unimplemented!() }
     }
